@@ -8,6 +8,7 @@ rejects (NotImplementedError) are counted, never judged.
 Part "mk": eval() of the source emitted by TranslatorMiasm for a location-free
 expression must return the identical (hash-consed) expression object.
 """
+import resource
 import time
 
 from vf import common
@@ -24,7 +25,7 @@ CHECK = dict(
                  "memory(addr, nbytes) is little endian and does not wrap; reads that wrap around the "
                  "pointer width are skipped",
                  "valuations on which the expression divides by zero are skipped",
-                 "workers run under a 0.4 GiB address-space limit: a source that builds an integer of "
+                 "emitted source runs with 384 MiB of address-space headroom: a source that builds an integer of "
                  "2^count bits for a large run-time shift count fails with MemoryError (reported) instead "
                  "of exhausting the machine"],
     timeout={"quick": 900, "thorough": 5400},
@@ -54,7 +55,23 @@ def op_name(e):
 
 def run_shard(params, rec):
     common.quiet()
-    common.limit_memory(0.4)   # bounds the integers a wrong shift count can build (see assumptions)
+    common.limit_memory(4)
+    hard = resource.getrlimit(resource.RLIMIT_AS)[1]
+    statm = open("/proc/self/statm", "rb", buffering=0)
+    page = resource.getpagesize()
+
+    def headroom(on):
+        """address-space limit = current size + 384 MiB while emitted source runs: bounds the
+        integers a wrong shift count can build (see assumptions)"""
+        if not on:
+            resource.setrlimit(resource.RLIMIT_AS, (hard, hard))
+            return
+        statm.seek(0)
+        cur = int(statm.read(64).split()[0]) * page
+        lim = cur + (384 << 20)
+        if hard != resource.RLIM_INFINITY:
+            lim = min(lim, hard)
+        resource.setrlimit(resource.RLIMIT_AS, (lim, hard))
     from miasm.expression import expression as m2
     from miasm.ir.translators.python import TranslatorPython
     from miasm.ir.translators.miasm_ir import TranslatorMiasm
@@ -120,9 +137,11 @@ def run_shard(params, rec):
         for i, v in env.ids.items():
             ns[i.name] = v
         t0 = time.process_time()
+        headroom(True)
         try:
             return eval(code, ns)
         finally:
+            headroom(False)
             if big_shift[0]:
                 # CPU time spent on valuations with a '<<' count >= 2^24; only bounds the cost of a
                 # source that builds 2^count-bit integers, never decides a verdict
